@@ -21,6 +21,21 @@ def main():
     dirty = sh('git -C /repo status --porcelain --untracked-files=no').stdout.strip()
     if dirty:
         print('refusing: /repo is not clean:\n' + dirty); sys.exit(2)
+    # evidence files describe runs on the unchanged tree: keep them out of the way of these runs
+    import shutil, tempfile
+    keep = tempfile.mkdtemp(prefix='evidence-keep-')
+    for f in os.listdir(ROOT + '/evidence'):
+        shutil.copy2(ROOT + '/evidence/' + f, keep)
+    try:
+        run_all(names, tier)
+    finally:
+        for f in os.listdir(keep):
+            shutil.copy2(keep + '/' + f, ROOT + '/evidence/' + f)
+        shutil.rmtree(keep)
+    summary()
+
+
+def run_all(names, tier):
     for name in names:
         d = ROOT + '/seeded/' + name
         meta = json.load(open(d + '/meta.json'))
@@ -53,7 +68,9 @@ def main():
         finally:
             sh('git -C /repo checkout -- .')
         json.dump(res, open(d + '/result.json', 'w'), indent=1)
-    # summary
+
+
+def summary():
     lines = ['# Seeded changes vs checks', '',
              '| seeded | property | what the change does | needs | check result |', '|---|---|---|---|---|']
     for name in sorted(os.listdir(ROOT + '/seeded')):
